@@ -90,6 +90,16 @@ def pool_for(c, t, name, L):
         out += [b"\x00\x12\x16\x13\x80\x00\x00\x00\x80\x00\x00\x00\x00\x98\x96\x80", b"\x01" + b"\x00" * 15,
                 b"\x00\xff\xff\xff\x80\x00\x00\x00\x80\x00\x00\x00\x00\x00\x00\x00",
                 b"\x00\x00\x00\x00\xff\xff\xff\xff\x00\x00\x00\x00\xff\xff\xff\xff", b"\x00\x9a\x00\x00" + b"\x80\x00\x00\x00" * 2 + b"\x00" * 4]
+    if name == "LOC":
+        # coordinates whose float image does not multiply back exactly (x / 3600000 * 3600000 < x), taken where three
+        # consecutive values are of that kind: only correct rounding in the constructor brings them back, and a
+        # truncating one drifts by one unit on every decode, so decode(encode(r)) != r shows on the decoded record
+        def hard(n):
+            return n / 3600000 * 3600000 < n
+        runs = [n for n in list(range(3, 60000)) + list(range(59789000, 59849000)) + list(range(177102000, 177162000))
+                if hard(n) and hard(n - 1) and hard(n - 2)]
+        for n in runs[:4] + runs[len(runs) // 2:len(runs) // 2 + 4] + runs[-4:]:
+            out.append(b"\x00\x12\x16\x13" + (0x80000000 + n).to_bytes(4, "big") + (0x80000000 - n).to_bytes(4, "big") + b"\x00\x98\x96\x80")
     if name == "WKS":
         out += [b"\x0a\x00\x00\x01\x06", b"\x0a\x00\x00\x01\x06\x80", b"\x0a\x00\x00\x01\x11\x00\x00\x01", b"\x0a\x00\x00\x01\xff\xff\xff"]
     seen = []
